@@ -128,10 +128,16 @@ func (g *c01Gen) term(d int) *gt {
 	switch {
 	case k < 45 || d <= 0:
 		return g.atomic()
-	case k < 61:
+	case k < 57:
 		return gApp("f", g.term(d-1))
-	case k < 74:
+	case k < 61: // the same name with another arity: f/2, g/1, g/3
+		return gApp("f", g.term(d-1), g.term(d-1))
+	case k < 70:
 		return gApp("g", g.term(d-1), g.term(d-1))
+	case k < 72:
+		return gApp("g", g.term(d-1))
+	case k < 74:
+		return gApp("g", g.term(d-1), g.term(d-1), g.term(d-1))
 	default:
 		return g.list(d-1, g.r.Intn(4) == 0)
 	}
@@ -176,7 +182,39 @@ func (g *c01Gen) callTo(p c01Pred, d int, bounded bool) *gt {
 			as[0] = peano(g.r.Intn(4))
 		}
 	}
+	if p.kind == 3 {
+		as[0] = g.keyList(true)
+		if g.r.Intn(3) > 0 {
+			as[1] = g.variable()
+		}
+	}
 	return refMk(p.name, as)
+}
+
+// keyList: a short list over a two-letter (or two-code) alphabet, so that keys of facts and of calls
+// coincide often; in a call it may be partial, contain a variable, or be a variable
+func (g *c01Gen) keyList(call bool) *gt {
+	n := 1 + g.r.Intn(3)
+	es := make([]*gt, n)
+	codes := g.r.Intn(3) == 0
+	for i := range es {
+		if codes {
+			es[i] = gInt(int64(1 + g.r.Intn(2)))
+		} else {
+			es[i] = gAtom(pick(g.r, []string{"a", "b"}))
+		}
+	}
+	if call {
+		switch g.r.Intn(8) {
+		case 0:
+			return g.variable()
+		case 1:
+			return gList(es[:1+g.r.Intn(n)], g.variable())
+		case 2:
+			es[g.r.Intn(n)] = g.variable()
+		}
+	}
+	return gList(es, gAtom("[]"))
 }
 
 // goal of a clause body / query. from = lowest predicate index that may be called (keeps plain
@@ -272,6 +310,20 @@ func (g *c01Gen) clausesOf(i int) []*gt {
 	p := g.preds[i]
 	var out []*gt
 	n := 1 + g.r.Intn(4)
+	if p.kind == 3 {
+		// a table keyed by text: w(Key, Value) facts (and a rule) whose first argument is a proper list
+		// of characters / codes - the runner stores some of them as double-quoted strings
+		for c := 0; c < n+1; c++ {
+			g.nvars = 0
+			h := refMk(p.name, []*gt{g.keyList(false), g.atomic()})
+			if c == n && g.r.Intn(2) == 0 {
+				out = append(out, gClause(h, g.body(i+1, 1)...))
+			} else {
+				out = append(out, gClause(h))
+			}
+		}
+		return out
+	}
 	if p.kind == 0 || p.arity == 0 {
 		for c := 0; c < n; c++ {
 			g.nvars = 0
@@ -340,6 +392,9 @@ func (g *c01Gen) program() []*gt {
 			}
 		}
 		g.preds = append(g.preds, p)
+	}
+	if g.r.Intn(3) == 0 {
+		g.preds = append(g.preds, c01Pred{name: "w", arity: 2, kind: 3})
 	}
 	var prog []*gt
 	for i := range g.preds {
